@@ -10,7 +10,7 @@ import random
 
 from props import _time as T
 
-FEATS = ('send', 'tempo', 'spawn', 'pause', 'rand', 'raise', 'cond')
+FEATS = ('send', 'tempo', 'spawn', 'pause', 'rand', 'raise', 'cond', 'stop')
 
 
 def sig(mode, tr, at, why):
